@@ -751,6 +751,50 @@ pub fn run_truthful(ex: &mut Executor, spec: &ExecSpec, label: &str) -> TrialOut
                 return out;
             };
             ex.probe("c07_rdh_messages_checked");
+            // the `previous:` rows are the (at most two) RDHs that the same validator saw before this one: the
+            // preceding selected packets of the same link (of the same FEE ID where stave checks dispatch by it)
+            {
+                let by_fee = spec.argv.iter().any(|a| a == "its-stave") && spec.argv.iter().any(|a| a == "all");
+                let f = filter_of_argv(&spec.argv);
+                let key = |q: &itsgen::walker::Pkt| if by_fee { q.rdh.fee_id as u32 } else { q.rdh.link_id as u32 };
+                let grp: Vec<&itsgen::walker::Pkt> = w.pkts.iter().filter(|q| f.matches(&q.rdh) && key(q) == key(p)).collect();
+                if let Some(i) = grp.iter().position(|q| q.off == p.off) {
+                    let want: Vec<&&itsgen::walker::Pkt> = grp[i.saturating_sub(2)..i].iter().collect();
+                    let rows: Vec<oracle::RdhRow> = t
+                        .lines()
+                        .filter(|l| l.trim_start().starts_with("previous:"))
+                        .filter_map(|l| {
+                            let body = l.trim_start().trim_start_matches("previous:").trim_start_matches(' ');
+                            oracle::parse_rdh_row(&format!("0:  {}", body.trim_end()))
+                        })
+                        .collect();
+                    let has_context = t.lines().any(|l| l.trim_start().starts_with("current :"));
+                    if has_context {
+                        let same = rows.len() == want.len()
+                            && rows.iter().zip(want.iter()).all(|(r, q)| {
+                                r.fee_id == q.rdh.fee_id as u64
+                                    && r.link_id == q.rdh.link_id as u64
+                                    && r.packet_counter == q.rdh.packet_counter as u64
+                                    && r.orbit == q.rdh.orbit as u64
+                                    && r.pages_counter == q.rdh.pages_counter as u64
+                                    && r.stop_bit == q.rdh.stop_bit as u64
+                            });
+                        if !same {
+                            out.fail = fail(
+                                "truthful",
+                                "previous-rows",
+                                tagm(format!(
+                                    "message at {off:#X}: {} `previous:` rows, {} RDHs of that link precede it among the selected packets (at most two are kept) or a row quotes another RDH",
+                                    rows.len(),
+                                    i
+                                )),
+                            );
+                            return out;
+                        }
+                        ex.probe("c07_previous_rows_checked");
+                    }
+                }
+            }
             if let Some(cur) = t.lines().find(|l| l.trim_start().starts_with("current :")) {
                 let body = cur.trim_start().trim_start_matches("current :").trim_start_matches(' ');
                 let body = body.split("<---").next().unwrap_or(body).trim_end();
@@ -812,6 +856,33 @@ pub fn run_truthful(ex: &mut Executor, spec: &ExecSpec, label: &str) -> TrialOut
                     return out;
                 }
                 ex.probe("c07_byte_dumps_checked");
+            }
+            // an empty-frame message quotes the TDT that closes the frame: the bytes at the `ending at` offset
+            if let (Some(i), Some(qpos)) = (
+                t.find("Frame closing TDT ["),
+                t.find("ending at 0x").and_then(|i| {
+                    let hex: String = t[i + 12..].chars().take_while(|c| c.is_ascii_hexdigit()).collect();
+                    u64::from_str_radix(&hex, 16).ok()
+                }),
+            ) {
+                let inner: String = t[i + "Frame closing TDT [".len()..].chars().take_while(|c| *c != ']').collect();
+                let toks: Vec<u8> = inner.split_whitespace().filter_map(|x| u8::from_str_radix(x, 16).ok()).collect();
+                let o = qpos as usize;
+                if toks.len() == 10 && o + 10 <= input.len() {
+                    if input[o..o + 10] != toks[..] {
+                        out.fail = fail(
+                            "truthful",
+                            "frame-closing-tdt-quote",
+                            tagm(format!(
+                                "frame message at {off:#X} quotes the closing TDT as {:02X?}; the word at its `ending at` offset {qpos:#X} is {:02X?}",
+                                toks,
+                                &input[o..o + 10]
+                            )),
+                        );
+                        return out;
+                    }
+                    ex.probe("c07_closing_tdt_quotes_checked");
+                }
             }
             if let Some(q) = t.find("ending at 0x").and_then(|i| {
                 let hex: String = t[i + 12..].chars().take_while(|c| c.is_ascii_hexdigit()).collect();
